@@ -503,7 +503,7 @@ def coq_ox(t):
     if k == "dstack":
         return f"(XDStack {coq_ox(t[1])} {coq_ox(t[2])} {c_bool(t[3])} {c_bool(t[4])})"
     if k == "drep":
-        return f"(XDRep {coq_ox(t[1])} {zlit(t[2])} {t[3]}%nat {t[4]}%nat)"
+        return f"(XDRep {coq_ox(t[1])} {zlit(t[2])} {zlit(t[3])} {c_opt(t[4], zlit)})"
     if k == "freeze":
         return f"(XFreeze {coq_ox(t[1])} {t[2]}%nat {DT[t[3]]})"
     raise ValueError(k)
@@ -668,10 +668,51 @@ def gen_tree(rng, dt, depth):
     if q < 0.8:
         b = a if rng.random() < 0.4 else gen_leaf(rng, dt)  # mixed-dtype stacks: fixed cases + malformed stream
         return ["dstack", a, b, rng.random() < 0.6, rng.random() < 0.6]
-    n = rng.choice([1, 2, 3])
-    ia_ = rng.randint(0, len(ia))
-    oa_ = ia_ if rng.random() < 0.6 else rng.randint(0, len(oa))
+    n = rng.choice([k for k in (1, 2, 5, 7) if k not in ia and k not in oa] or [7])
+    ia_ = rng.randint(-(len(ia) + 1), len(ia))
+    oa_ = None if rng.random() < 0.5 else rng.randint(-(len(oa) + 1), len(oa))
     return ["drep", a, n, ia_, oa_]
+
+
+def replicated_trees(ctx):
+    """DiagonalReplicated (linop and operator versions) over the whole axis lattice: every input_axis in
+    range(-(r+1), r+1), output_axis None / non-negative / negative over the operand's output rank, operands whose
+    input and output ranks differ, a replicate count that is no operand dimension (a misplaced axis is visible in the
+    shape), and the derived forms of the stack.  Default-output-axis cases come first."""
+    rng = ctx.rng
+    operands = [
+        ["L", True, "scale2", [3, 4], False, "float32"],      # (3,4) -> (3,4), generic LinearOperator
+        ["Sum", [3, 4], 1, "float32"],                          # (3,4) -> (3,)
+        ["Sum", [3, 4], 0, "float64"],                          # (3,4) -> (4,)
+        ["Mat", 2, 3, 4, "float32"],                            # (3,4) -> (2,4), MatrixOperator with input_cols
+        ["Mat", 2, 3, 0, "complex64"],                          # (3,) -> (2,)
+        ["Transpose", [3, 4], "float32"],                       # (3,4) -> (4,3)
+        ["Id", [3, 4], "complex64"],
+        ["L", False, "abs", [3, 4], False, "float32"],          # operator version, (3,4) -> (3,4)
+        ["L", False, "scale2", [3, 4], True, "float32"],        # operator version, (3,4) -> (4,)
+        ["L", True, "scale2", [2, 3, 4], True, "float32"],      # (2,3,4) -> (3,4)
+    ]
+    if ctx.quick:   # the thorough tier uses all ten operands
+        operands = [a for k, a in enumerate(operands) if k not in (2, 6, 8)]
+    first, rest = [], []
+    for a in operands:
+        ia, oa = decl_shapes(a)
+        r, q = len(ia), len(oa)
+        for i_ax in range(-(r + 1), r + 1):
+            first.append(["drep", a, 5, i_ax, None])
+            for o_ax in range(-(q + 1), q + 1):
+                rest.append(["drep", a, 5, i_ax, o_ax])
+    if ctx.quick:
+        rest = rng.sample(rest, 24)
+    stacks = first + rest
+    lin = [t for t in stacks if t[1][0] != "L" or t[1][1]]
+    nder = ctx.n(4, 90)
+    derived = []
+    for t in rng.sample(first, min(len(first), nder)) + rng.sample(rest, min(len(rest), nder)):
+        if t in lin:
+            derived += [[f, t] for f in rng.sample(["H", "T", "gram", "conj"], ctx.n(2, 4))]
+        derived.append(["scal", rng.choice(["r", "c", "np64"]), rng.choice(["l", "r"]), t])
+    return stacks + derived
 
 
 def gen_freeze(rng, dt):
@@ -799,7 +840,7 @@ def unit_of(t, ob):
 
 
 def run_exprs(ctx):
-    N = ctx.n(260, 1200)
+    N = ctx.n(235, 1200)
     trees = []
     for i in range(N):
         dt = DTS[i % 4]
@@ -839,7 +880,7 @@ def run_exprs(ctx):
         ["div", "r", ["SId", "r", [3], "complex64"]], ["div", "c", ["Id", [3], "float32"]],
         ["scal", "c", "r", ["L", False, "scale2", [3], False, "float32"]], ["scal", "np64", "r", ["L", False, "scale2", [3], False, "float32"]],
     ]
-    trees = fixed + trees
+    trees = fixed + replicated_trees(ctx) + trees
     # every subexpression is observed on its own, so that a failure is attributed to the
     # innermost derived form that introduces it
     seen, order = {}, []
